@@ -33,7 +33,7 @@ class Contract:
     def __init__(self, target, params, requires=(), ensures=(), raises=None, loops=None, overrides=None,
                  setup=None, props=(), name=None, raises_only_if=False, notes="", assumes=(), result_kind=None,
                  frame=None, extra_names=None, timeout=10000, path_ensures=None, stubs=None, tier="quick",
-                 case=None):
+                 case=None, native_seams=None):
         self.target = target
         self.params = params
         self.requires = list(requires)
@@ -53,6 +53,7 @@ class Contract:
         self.timeout = timeout
         self.path_ensures = path_ensures
         self.tier = tier                 # "quick": every run; "thorough": only in the thorough tier
+        self.native_seams = list(native_seams or [])   # seams scripted by the native replay / search harness
         self.case = case                 # label of the precondition case this contract instance covers
         self.stubs = dict(stubs or {})   # "Class.attr" -> (z3 function, owner class, result kind, 'property'|'method')
         import inspect
@@ -151,7 +152,7 @@ def prune_orphans(hyps, cond):
                     count[n] = count.get(n, 0) + 1
         for i, ss in enumerate(syms):
             if alive[i] and ss and has_quantifier(hyps[i]):
-                if any(count.get(n, 0) == 1 and n not in goal_syms for n in ss):
+                if all(count.get(n, 0) == 1 and n not in goal_syms for n in ss):
                     alive[i] = False
                     changed = True
     return [h for h, a in zip(hyps, alive) if a]
@@ -394,6 +395,7 @@ def verify(contract, index, schema_mod, keep_states=True):
 
 def _verify(contract, index, schema_mod, fs, res):
     eng = make_engine(index, schema_mod, contract)
+    res.engine = eng
     eng.current_file = fs.file
     st = State()
     frame = st.frames[-1]
